@@ -49,7 +49,7 @@ class Capture:
 
 @st.composite
 def _case(draw, tier):
-    nfiles = draw(st.integers(1, 2))
+    nfiles = draw(st.sampled_from([1, 2]))
     files = []
     for _ in range(nfiles):
         prog = draw(gp.program_with_prev(tier, max_sites=4, styles=("assert",), max_leaves=6,
